@@ -85,6 +85,9 @@ func (c *chooser) loadStep(K int) string {
 		s = 1 + r.Intn(7)
 	}
 	text := fmt.Sprintf("L:%s:%d:%d:%d:%d:%d:%d", keysText(c.keys(K)), p, d, m, rt, q, s)
+	if r.Chance(1, 6) {
+		return "Y" + text[1:] // the same options, upstreams from a dynamic source
+	}
 	if r.Chance(1, 8) {
 		text += fmt.Sprintf(":%d", 1+r.Intn(3)) // the first upstream has its own max_requests
 	}
@@ -218,7 +221,7 @@ func (p *prop) Generate(rng *core.Rand, tier string, emit func(string)) {
 		emit("sched 1 L:0:1:100:1:0:0:0") // reports harness-infra
 		return
 	}
-	nPlain, nTimed, nBad, nStress := 9000, 500, 400, 60
+	nPlain, nTimed, nBad, nStress := 6000, 400, 300, 50
 	maxLen := 26
 	switch tier {
 	case "thorough":
